@@ -250,4 +250,22 @@ class C14(Spec):
         return genops.gen_bounded(rng, tier)
 
 
-PROPS = {"C14": C14(), "C06": C06(), "C07": C07(), "C10": C10(), "C08": C08(), "C09": C09(), "C11": C11(), "C02": C02(), "C03": C03(), "C13": C13(), "C16": C16(), "C01": C01(), "C04": C04(), "C05": C05(), "C12": C12()}
+class C18(Spec):
+    lean_modules = ["Varint.Props.C18"]
+    diff_is_violation = True
+    rule = ("for every allocating API (dictionary create/build/encode/size/decode/decode-into, PFOR analyse/encode, float "
+            "encode/decode, adaptive encode (automatic and every forced type) and decode, bitmap create/clone/decode/add/"
+            "remove/addMany/addRange/removeRange/or/and/xor/andnot from states of every container type around every "
+            "growth and conversion point): count the allocation requests N of the undisturbed call, then refuse request "
+            "k for EVERY k = 1..N; each outcome is classified (failure indication / identical / different-but-correct / "
+            "void-incomplete / wrong) after decoding any 'successful' output, with a live-block count for leaks, an "
+            "unchanged-and-usable check of the long-lived object, ASan for crashes; N and the outcome string are compared "
+            "with the model's prediction")
+    assumptions = ["crash and leak freedom are observed on the implementation (they are not model properties)",
+                   "one refused request per call (the theorems cover any refusal pattern)"]
+
+    def gen(self, rng, tier):
+        return genops.gen_oom(rng, tier)
+
+
+PROPS = {"C18": C18(), "C14": C14(), "C06": C06(), "C07": C07(), "C10": C10(), "C08": C08(), "C09": C09(), "C11": C11(), "C02": C02(), "C03": C03(), "C13": C13(), "C16": C16(), "C01": C01(), "C04": C04(), "C05": C05(), "C12": C12()}
